@@ -301,6 +301,10 @@ Fixpoint run_loop (fuel : nat) (m : meth) (a : ialt) (mark : nat) (start_tok : o
       end
   end.
 
+(* `return children or None` of a one-or-more loop, `return children` of a zero-or-more loop *)
+Definition loop_ret (m : meth) (v : value) : value :=
+  if is_loop1_name (m_name m) then (if truthy v then v else VNone) else v.
+
 Definition run_body (fuel : nat) (m : meth) (st : pstate) : R :=
   let prev := invalid st in
   let st0 := if m_without_invalid m then with_invalid st false else st in
@@ -309,7 +313,7 @@ Definition run_body (fuel : nat) (m : meth) (st : pstate) : R :=
     if m_loop m then
       match m_alts m with
       | [a] => match run_loop fuel m a mark start_tok [] [] st1 with
-               | (Ok v, st2) => (Ok v, if m_without_invalid m then with_invalid st2 prev else st2)
+               | (Ok v, st2) => (Ok (loop_ret m v), if m_without_invalid m then with_invalid st2 prev else st2)
                | other => other
                end
       | _ => (Raise XAssertion, st1)
